@@ -874,6 +874,55 @@ func (g *Gen) Run() {
 		}
 	}
 	g.finishEnsures()
+	// loop N no-break: structural obligation on the control-flow graph
+	for _, li := range g.loops {
+		lc := g.loopContract(li)
+		if lc == nil || !lc.NoBreak {
+			continue
+		}
+		bad := ""
+		for b := range li.blocks {
+			if b == li.header {
+				continue
+			}
+			for _, s := range b.Succs {
+				if li.blocks[s] {
+					continue
+				}
+				// leaving the loop from the body: allowed only towards a block that returns (possibly after straight-line code)
+				t := s
+				for steps := 0; steps < 8; steps++ {
+					if len(t.Instrs) == 0 {
+						break
+					}
+					if _, isRet := t.Instrs[len(t.Instrs)-1].(*ssa.Return); isRet {
+						break
+					}
+					if j, isJump := t.Instrs[len(t.Instrs)-1].(*ssa.Jump); isJump && len(t.Succs) == 1 && !li.blocks[t.Succs[0]] {
+						_ = j
+						t = t.Succs[0]
+						continue
+					}
+					break
+				}
+				last := t.Instrs[len(t.Instrs)-1]
+				if _, isRet := last.(*ssa.Return); !isRet {
+					if _, isPanic := last.(*ssa.Panic); !isPanic {
+						bad = g.lastLine(b)
+					}
+				}
+			}
+		}
+		goal := "true"
+		if bad != "" {
+			goal = "false"
+		}
+		o := g.addObl("scan", fmt.Sprintf("loop%d:no-break", li.ordinal), &State{pc: "true"}, goal, token.NoPos)
+		o.Text = "the loop is left only through its header condition or by returning"
+		if bad != "" {
+			o.Text += " (left from the body near: " + bad + ")"
+		}
+	}
 	// every site contract written for this function must have matched a call (a silently unmatched one proves nothing)
 	for k, ct := range g.eng.db.Contracts {
 		if ct.Site && (strings.HasPrefix(k, "sitereq:"+g.fn.String()+":") || strings.HasPrefix(k, "site:"+g.fn.String()+":")) && !g.usedSites[k] {
